@@ -17,6 +17,9 @@ pub use js::*;
 
 pub use task::spawn;
 
+#[cfg(remoc_verif)]
+pub mod verif;
+
 /// Whether threads are available and working on this platform.
 pub async fn are_threads_available() -> bool {
     use tokio::sync::{OnceCell, oneshot};
